@@ -1,7 +1,7 @@
 #!/usr/bin/env bash
-# run seed_eval for every seeded change against its own property's check (plus extra ids given as "ID:extra,extra")
+# run seed_eval for every seeded change matching the glob (default: all) against its own property's check
 cd /verif
-for d in seeded/C*-m*; do
+for d in ${1:-seeded/C*-m*}; do
   id=$(basename $d | cut -d- -f1)
   echo "== $d"
   tools/seed_eval.sh $d $id 2>&1 | tail -3
